@@ -187,6 +187,7 @@ Fixpoint move_loop (fuel : nat) (src dst : dom) (nu : N) (q : list ref) : res (d
 (* WeakDom::transfer *)
 Definition dom_transfer (src dst : dom) (nu : N) (r dest : ref) : res (dom * dom * N) :=
   if N.eqb r (d_root src) then Panic else
+  if negb (has dest (d_insts dst)) then Panic else      (* the new parent must exist in dest before anything moves (/repo 2a3a8420) *)
   match inner_remove src r with
   | None => Panic
   | Some (src1, i) =>
